@@ -275,7 +275,9 @@ class Base:
 
             return result
 
-        all_operations = operations.leaf_operations_symbolic_with_union
+        # only leaf symbols keep the receiver's variables/symbolic: any op with AST arguments (including union)
+        # derives them from the arguments it is rebuilt with
+        all_operations = operations.leaf_operations_symbolic
         # special case: if self is one of the args, we do not copy annotations over from self since child
         # annotations will be re-processed during AST creation.
         if annotations is None:
